@@ -39,13 +39,14 @@ def indexPhase (alg : Alg) (obs : Nat → Bool) (sz : Sizes) (c : Nat) : Bool ×
     that contributes to it ran to completion -/
 abbrev Result := Option Bool
 
-/-- `Mesh::render` as written:
+/-- `Mesh::render` as written (after the fix f00be3c):
     ```
     t = Pool::build(...)                 // workers; then `if (cancel) return Root()`
     if (cancel || t.get() == nullptr) return nullptr
-    [t->assignIndices(settings)]         // simplex, hybrid
-    out = Dual::walk(...)                // workers; top edges; collect          — no check
-    // TODO: check for early return here again
+    [t->assignIndices(settings)          // simplex, hybrid
+     if (cancel) return nullptr]
+    out = Dual::walk(...)                // workers; top edges; collect
+    if (cancel) return nullptr
     t.reset(settings)
     return out
     ``` -/
@@ -55,23 +56,29 @@ def render (alg : Alg) (sz : Sizes) (obs : Nat → Bool) : Result :=
   let checkSawCancel := obs (c + 1)    -- mesh.cpp, after build
   if buildSawCancel || checkSawCancel then none
   else
-    let (i, c) := indexPhase alg obs sz (c + 2)
-    let (w, _) := runPhase obs sz.walk c
-    some (b && i && w)
+    match alg with
+    | .dc =>
+      let (w, c) := runPhase obs sz.walk (c + 2)
+      if obs c then none else some (b && w)
+    | _ =>
+      let (i, c) := indexPhase alg obs sz (c + 2)
+      if obs c then none
+      else
+        let (w, c) := runPhase obs sz.walk (c + 1)
+        if obs c then none
+        else some (b && i && w)
 
-/-- the repaired flow: the same check after `assignIndices` and after `Dual::walk` -/
-def renderFixed (alg : Alg) (sz : Sizes) (obs : Nat → Bool) : Result :=
+/-- the flow BEFORE the fix (`// TODO: check for early return here again`): no read of the flag
+    after `assignIndices` and after `Dual::walk` -/
+def renderOld (alg : Alg) (sz : Sizes) (obs : Nat → Bool) : Result :=
   let (b, c) := runPhase obs sz.build 0
   let buildSawCancel := obs c
   let checkSawCancel := obs (c + 1)
   if buildSawCancel || checkSawCancel then none
   else
     let (i, c) := indexPhase alg obs sz (c + 2)
-    if obs c then none
-    else
-      let (w, c) := runPhase obs sz.walk (c + 1)
-      if obs c then none
-      else some (b && i && w)
+    let (w, _) := runPhase obs sz.walk c
+    some (b && i && w)
 
 /-- the flag is raised just before the read at clock `k` (never, for `none`) -/
 def raisedAt : Option Nat → Nat → Bool
